@@ -317,7 +317,7 @@ def numeric_atoms(rng: random.Random, v: str, *, rich: bool = True) -> dict:
         extra = rng.choice(["", "", ", constraints='center'"])
         if kind == "cc" and rng.random() < 0.35:
             extra += ", lower_bound=0, upper_bound=2.5"  # a period shorter than the data range: values are wrapped
-        a.update(expr=f"{kind}({n}, df={df_}{extra})", stateful=True)
+        a.update(expr=f"{kind}({n}, df={df_}{extra})", stateful=True, mean_based=("constraints='center'" in extra))  # NaN constraint from one null
     elif kind == "I":
         a.update(expr=rng.choice([f"I({n}**2)", f"I({n})", f"I({n} + 1)"]))
         if a["expr"] == f"I({n})":
